@@ -36,7 +36,7 @@ COMPONENTS = {
 ASSUMPTIONS = [
     "nothing is asserted about torn files (a prefix of a valid file can be a valid shorter file; C13 states no recovery guarantee)",
     "save and load of one run use the same simulated locale",
-    "only exceptions are injected, never silent short writes (numpy ignores write()'s return value)",
+    "a short count returned by a raw stream to numpy's row writer (which ignores it) is undecided; returned to numpoly code and ignored there, it is judged",
     "pickling compares canonical (non-zero) terms: __reduce__ drops all-zero terms by design",
 ]
 
